@@ -304,6 +304,13 @@ func nondetSites(fns []*ssa.Function) []ndSite {
 					if g, ok := x.Addr.(*ssa.Global); ok {
 						out = append(out, ndSite{fn, in, "globalwrite", "write to package variable " + g.Name(), false, "process-local state written on a consensus path"})
 					}
+					if f := keeperHeldRoot(x.Addr); f != "" {
+						out = append(out, ndSite{fn, in, "keeperstate", "write to memory held by " + f, false, "memory that outlives the call (reached through a pointer, map or slice field of a keeper) is written on a consensus path: process-local state that is not part of the store and is not rolled back with it"})
+					}
+				case *ssa.MapUpdate:
+					if f := keeperHeldRoot(x.Map); f != "" {
+						out = append(out, ndSite{fn, in, "keeperstate", "write to map held by " + f, false, "a map held by a keeper is updated on a consensus path: process-local state that is not part of the store"})
+					}
 				case *ssa.Convert:
 					if bt, ok := x.Type().Underlying().(*types.Basic); ok && bt.Info()&types.IsFloat != 0 {
 						if st, ok := x.X.Type().Underlying().(*types.Basic); ok && st.Info()&types.IsFloat == 0 {
@@ -420,6 +427,7 @@ func c11Controls(w *World, r *Report) {
 		"WallClock": "reported:wallclock", "MathRand": "reported:random", "CryptoRand": "reported:random", "Env": "reported:env",
 		"Goroutine": "reported:goroutine", "Select": "reported:select", "ReflectKeys": "reported:reflectmap", "SyncMap": "reported:syncmap",
 		"WriteGlobal": "reported:globalwrite", "Float": "reported:float",
+		"WriteKeeperCache": "reported:keeperstate", "WriteKeeperMap": "reported:keeperstate", "LocalCopyOK": "nothing found",
 	}
 	var names []string
 	for n := range want {
@@ -433,4 +441,65 @@ func c11Controls(w *World, r *Report) {
 		}
 		r.Check(g == want[n], "C11.controls", "control "+n, "selftest/nondet/control.go", "detector verdict: "+g, "the detector's verdict on the control is '"+g+"', expected '"+want[n]+"': the detector is broken")
 	}
+}
+
+// keeperHeldRoot follows an address down its FieldAddr / IndexAddr chain; when the chain starts at a pointer, map
+// or slice loaded from a field of a keeper-like struct (a named struct called Keeper / msgServer / Migrator /
+// queryServer, or any struct of a .../keeper package) it returns "Type.field", else "".
+func keeperHeldRoot(addr ssa.Value) string {
+	v := addr
+	for i := 0; i < 10; i++ {
+		switch x := v.(type) {
+		case *ssa.FieldAddr:
+			v = x.X
+			continue
+		case *ssa.IndexAddr:
+			v = x.X
+			continue
+		case *ssa.UnOp:
+			if x.Op != token.MUL {
+				return ""
+			}
+			// a load: of a keeper's field?
+			fa, ok := x.X.(*ssa.FieldAddr)
+			if !ok {
+				return ""
+			}
+			named, f := fieldOf(fa)
+			if named == nil || named.Obj() == nil || named.Obj().Pkg() == nil {
+				return ""
+			}
+			switch x.Type().Underlying().(type) {
+			case *types.Pointer, *types.Map, *types.Slice:
+			default:
+				return ""
+			}
+			n := named.Obj().Name()
+			if n == "Keeper" || n == "msgServer" || n == "Migrator" || n == "queryServer" || strings.HasSuffix(named.Obj().Pkg().Path(), "/keeper") {
+				return n + "." + f
+			}
+			return ""
+		case *ssa.Field:
+			// value-receiver keeper: k.cache where k is a struct value
+			st, ok := x.X.Type().(*types.Named)
+			if !ok || st.Obj() == nil || st.Obj().Pkg() == nil {
+				return ""
+			}
+			switch x.Type().Underlying().(type) {
+			case *types.Pointer, *types.Map, *types.Slice:
+			default:
+				return ""
+			}
+			n := st.Obj().Name()
+			if n == "Keeper" || n == "msgServer" || n == "Migrator" || n == "queryServer" || strings.HasSuffix(st.Obj().Pkg().Path(), "/keeper") {
+				if su, ok := st.Underlying().(*types.Struct); ok && x.Field < su.NumFields() {
+					return n + "." + su.Field(x.Field).Name()
+				}
+			}
+			return ""
+		default:
+			return ""
+		}
+	}
+	return ""
 }
